@@ -793,7 +793,8 @@ fn spawn_client_worker() -> ClientWorker {
                 Err(p) => (format!("panic:{}", p), None),
                 Ok(Ok(mut conn)) => {
                     // nothing of what follows BEGIN may have been consumed by the handshake
-                    let m = guard(|| conn.recv.get_next_message(Timeout::Duration(Duration::from_millis(1500))));
+                    let slack = Duration::from_micros(2 * GAP_US.load(std::sync::atomic::Ordering::SeqCst));
+                    let m = guard(|| conn.recv.get_next_message(Timeout::Duration(Duration::from_millis(1500) + slack)));
                     let verdict = match m {
                         Ok(Ok(m)) => {
                             let mut p = m.body.parser();
@@ -928,7 +929,7 @@ impl<'a> Hs<'a> {
         }
         let _ = self.client.as_ref().unwrap().jobs.send((name.clone(), with_fd));
         let pieces: u64 = reps.iter().map(|r| r.chunks.len() as u64).sum();
-        let got = self.client.as_ref().unwrap().results.recv_timeout(Duration::from_millis(2500) + Duration::from_micros(pieces * GAP_US.load(std::sync::atomic::Ordering::SeqCst)));
+        let got = self.client.as_ref().unwrap().results.recv_timeout(Duration::from_millis(4500) + Duration::from_micros((3 * pieces + 3) * GAP_US.load(std::sync::atomic::Ordering::SeqCst)));
         if got.is_err() {
             // the connect never returned: that thread is lost; the next connect gets a new one
             self.client = None;
@@ -944,7 +945,9 @@ impl<'a> Hs<'a> {
         steps.push(b"BEGIN\r\n".to_vec());
         let res = match got {
             Ok((res, msg, el)) => {
-                if el > Duration::from_millis(2000) {
+                // bounded time AFTER the server's last piece: the scripted gaps between the pieces are the server's
+                let allowed = Duration::from_millis(2000) + Duration::from_micros((pieces + 1) * GAP_US.load(std::sync::atomic::Ordering::SeqCst));
+                if el > allowed {
                     self.out.violation(&req, &format!("connect_to_bus took {:?}", el));
                 }
                 if res.starts_with("panic") {
